@@ -179,7 +179,24 @@ def check(prop, tier, verbose=False):
                 bounded = pm.bounded(tier, seed)
             except Exception:
                 berr = traceback.format_exc()[-2000:]
+        static_recs = None
+        serr = None
+        if pm is not None and hasattr(pm, "static_obligations"):
+            try:
+                static_recs = pm.static_obligations(tier)
+            except Exception:
+                serr = traceback.format_exc()[-2000:]
         units = merge_shards(r_units.get())
+        if static_recs is not None:
+            units.append({"cid": "static:" + prop, "ok": True, "paths": 0, "gen_time": 0.0, "wall": 0.0, "sha": "-",
+                          "file": "src/flowmark/**", "sample": None, "axioms": [], "strings": "ST", "n_loops": 0,
+                          "n_generated": len(static_recs),
+                          "records": [{"oid": r["oid"], "status": r["status"], "kind": "frame", "label": r["oid"].split("/")[-1],
+                                       "props": [prop], "finding": None, "time": 0.0, "backend": "static-ast",
+                                       "src": r["src"], "unit": "static:" + prop, "model": r.get("detail", ""),
+                                       "decoded": None} for r in static_recs]})
+        if serr:
+            units.append({"cid": "static:" + prop, "ok": False, "error": "static analysis crashed: " + serr, "wall": 0})
         canaries = r_can.get()
     return report(prop, tier, seed, units, canaries, bounded, berr, pm, t_start, verbose)
 
@@ -387,7 +404,7 @@ def write_evidence(prop, tier, seed, units, recs, canaries, bounded, known, know
                     "solvers: z3 5.1.0 (python wheel), fallback /usr/bin/z3 4.8.12 and cvc5 1.0.3"]
     from .sx_str import LIB_AXIOMS
     assumptions += ["assumed library contract %s: %s" % (k, LIB_AXIOMS[k]) for k in sorted(axioms) if k in LIB_AXIOMS]
-    for cid in [u["cid"] for u in units if u.get("ok")]:
+    for cid in [u["cid"] for u in units if u.get("ok") and u["cid"] in REGISTRY]:
         c = REGISTRY[cid]
         for name, cal in c.calls.items():
             if cal.kind in ("uf", "effect", "custom", "attr"):
